@@ -147,6 +147,19 @@ CLAIMED = {
              "and aliases to the rule path) repaired by a fix: commit.",
         technique="Lean 4 round-trip theorems on a hand model of the file formats + byte-level correspondence with the real binary + end-to-end runs of the binary against the library",
         design="§4 C19"),
+    "C20": dict(
+        text="Proved over a model of the config layer (filters, validation of % references, the word pipeline and its per-tag cache), with the library, the rule files and the word "
+             "files as parameters, hence for projects of any size: `!` keeps exactly the groups whose lowered name is not listed, in file order, and fails if nothing was "
+             "removed; `~` returns one group per listed name, in the order listed, the first of that name, and fails on a missing name; on a config that passes validation "
+             "every tag's % chain reaches a root within |config|+1 hops and the loop detector itself cannot run out of steps (pigeonhole over the distinct tags); a config in "
+             "which some tag's % chain returns to it never passes validation; and whatever order the tags are run in, every result reported with the cache is the result "
+             "computed without it (cache coherence as an invariant over the run). PARTIAL: that the composed stages equal one library call on the concatenated history is "
+             "C10's staged-run statement and inherits its render/parse round-trip hypothesis; it is compared on every generated chain. The config lexer/parser is not "
+             "modelled: the tie is the seq-plan correspondence plus runs of the real binary.",
+        note="Trusted: Lean kernel, standard axioms; seq-plan correspondence (model plan vs the reference reading of the generated config, 160 projects per quick run) and the "
+             "reference's agreement with the files the asca binary writes; the project generator.",
+        technique="Lean 4 theorems (filters, termination/cycle rejection, cache invariant) on a hand model + plan correspondence + end-to-end runs of the real binary on generated project trees",
+        design="§4 C20"),
     "C14": dict(
         text="Proved over the port of syll.rs, for any run length, position and syllable: a matrix naming no length/stress/tone leaves the syllable's stress, tone and segment count unchanged and reports no length change, and touches no segment outside the run; apply_syll_mods (stress/tone setting) never touches a segment; joining and splitting syllables keep every segment in order. PARTIAL: the whole-rule statements with arbitrary environments are decided by c14-spec and the correspondence.",
         note='Trusted: Lean kernel, standard axioms (+ bv_decide certificates where the bit layer is used); the hand port of subrule.rs/rule.rs/syll.rs (Model/Interp), tied to the code on every run by the interp-ops correspondence (identical outcome class and word on ~27k generated cases quick / 400k thorough, release profile); generators and labels of the search.',
